@@ -423,7 +423,9 @@ class FactoryFunctorPool(FunctorPool):
             self.verbose = verbose
 
         def run(self) -> None:
-            while not self.stop_event.is_set():
+            while True:
+                # the thread ends only by consuming its stop token (None), a token left in the queue would stop the thread
+                # of the next call and nobody would replace the workers
                 replace_id = self.pool._replace_queue.get()
                 if replace_id is None:
                     break
